@@ -727,4 +727,52 @@ Section Invoke.
     split; [exact Hl2|]. split; [rewrite Hzk; exact Hz1|]. split; [exact HRv'|exact Hb'].
   Qed.
 
+
+  (* ---------- every invocation of a run ---------- *)
+
+  Variable scV : scope.                   (* the scope through which variables are observed *)
+  Hypothesis HscV : sc_named scV = scf.
+  Hypothesis Hscf_unique : forall x r, In (x, r) scf -> sc_get scf x = Some r.
+
+  Lemma list_eqb_refl (l : list N) : (if list_eq_dec N.eq_dec l l then true else false) = true.
+  Proof. destruct (list_eq_dec N.eq_dec l l); [reflexivity|contradiction]. Qed.
+
+  Lemma list_list_eqb_refl (l : list (list N)) : (if list_eq_dec (list_eq_dec N.eq_dec) l l then true else false) = true.
+  Proof. destruct (list_eq_dec (list_eq_dec N.eq_dec) l l); [reflexivity|contradiction]. Qed.
+
+  Lemma vars_agree s c : Rv s c ->
+    map snd (map (fun kv : name * reg => (fst kv, reg_value (c_regs c) (snd kv))) (var_names scV)) =
+    map snd (map (fun kv : name * reg => (fst kv, env_get (s_env s) (fst kv))) (var_names scV)).
+  Proof.
+    intros (_ & Hv & _). rewrite !map_map. cbn [snd fst]. apply map_ext_in. intros [x r] Hin.
+    unfold var_names in Hin. apply filter_In in Hin. destruct Hin as [Hin Hcls]. rewrite HscV in Hin. cbn [snd fst] in *.
+    pose proof (Hscf_unique _ _ Hin) as Hx.
+    destruct r as [i t vol|n|b|i t|i t|i t|i t vol|i t|]; try discriminate Hcls;
+      rewrite <- (Hv _ _ Hx eq_refl); try destruct vol; reflexivity.
+  Qed.
+
+  Theorem sim_run ins : forall d c s (first : bool) n0,
+    d_conn d = Some c -> idle c ->
+    (if first then c_staged c = Some pidx else c_staged c = None /\ c_prog c = pidx /\ n0 = ntr_of) ->
+    lookup_prog (d_progs d) pidx = Some (prog n0) -> d_time_zero d = 1000 ->
+    Rv s c -> env_bounded (s_env s) -> Forall (fun i : input => prims_bounded (fst i)) ins ->
+    all_obs_eq (machine_run scV (length (filter (fun d => sd_report d) decls)) d ins)
+               (src_run scV (mkSP decls (map sev evs)) first s ins) = true.
+  Proof.
+    induction ins as [|i r IH]; intros d c s first n0 Hconn Hidle Hstage Hlook Htz HRv Hb Hpb; [reflexivity|].
+    inversion Hpb as [|? ? Hpi Hpr]; subst.
+    cbn [machine_run src_run].
+    pose proof (sim_invoke d c s first n0 i Hconn Hidle Hstage Hlook HRv Hb Hpi) as H. cbn zeta in H. rewrite Htz in H.
+    destruct (invoke (set_input d i)) as [[rc d'] em].
+    destruct (invoke_src (mkSP decls (map sev evs)) (mkCtx (snd i) 1000 (fst i)) (mkPend first []) s) as [[rc' s'] outs].
+    destruct H as (E1 & E2 & E3 & E4 & c' & Hc' & Hidle' & Hst' & Hpg' & _ & Hl' & Htz' & HRv' & Hb').
+    cbn [all_obs_eq]. apply andb_true_iff. split.
+    - unfold obs_eqb. cbn [o_rc o_cwnd o_rate o_report o_vars]. rewrite Hc'.
+      fold (cwnds_m em) (rates_m em) (reports_m (length (filter (fun d => sd_report d) decls)) em).
+      fold (cwnds_s outs) (rates_s outs) (reports_s outs).
+      rewrite E1, E2, E3, E4, (vars_agree _ _ HRv').
+      rewrite Z.eqb_refl, !list_eqb_refl, list_list_eqb_refl. reflexivity.
+    - apply (IH d' c' s' false ntr_of); auto; rewrite Htz'; exact Htz.
+  Qed.
+
 End Invoke.
